@@ -1,5 +1,5 @@
 From ZV Require Import Prelude GoSem Plasma.
-From ZV.gen Require Import Consts Pure PurePlasma.
+From ZV.gen Require Import Consts Pure PureVerifCommon PurePlasma.
 Open Scope Z_scope.
 Ltac Zify.zify_post_hook ::= Z.div_mod_to_equations.
 
@@ -372,4 +372,48 @@ Proof.
   - intros H He.
     repeat (match type of H with context [match ?x with _ => _ end] => destruct x end); inversion H; reflexivity.
   - discriminate.
+Qed.
+
+(* ---- the base cost of the model IS the code: vm.GetBasePlasmaForAccountBlock translated whole (gen/PurePlasma.v).
+   Inputs of the translation: types.IsEmbeddedAddress(block.Address), block.BlockType (IsReceiveBlock is translated too), the error of
+   embedded.GetEmbeddedMethod, len(block.Data), the two results of method.GetPlasma. [key] / [p]: the method found and
+   its cost in the dumped method tables (Consts.MethodPlasmaKeys / Vals). *)
+Lemma base_plasma_is_source bt gm dl key p :
+  0 <= dl -> (gm = 0 -> method_plasma key = Some p) ->
+  match base_plasma (ab_IsReceiveBlock bt) (negb (gm =? Err_constants_ErrNotContractAddress)) (gm =? 0) key dl with
+  | BOk b => GetBasePlasmaForAccountBlock false bt gm dl p 0 = (b, 0)
+  | BErr => snd (GetBasePlasmaForAccountBlock false bt gm dl p 0) <> 0
+  end.
+Proof.
+  intros Hdl Hm. unfold base_plasma, GetBasePlasmaForAccountBlock. cbv zeta.
+  destruct (ab_IsReceiveBlock bt); [reflexivity|].
+  destruct (Z.eqb_spec gm Err_constants_ErrNotContractAddress) as [Hn|Hn]; cbn [negb].
+  - unfold MaxDataLength, ABByteDataPlasma, AccountBlockBasePlasma.
+    destruct (16384 <? dl) eqn:El; [cbn; unfold Err_verifier_ErrABDataTooBig; lia|].
+    assert (Hl : dl <= 16384) by lia.
+    rewrite (wrapS64_small (dl * 68)) by (unfold_consts; lia).
+    rewrite (wrapS64_small (dl * 68 + 21000)) by (unfold_consts; lia).
+    unfold u64, wrapU. change (2 ^ 64) with two64. reflexivity.
+  - destruct (Z.eqb_spec gm 0) as [H0|H0]; cbn [negb].
+    + rewrite (Hm H0). reflexivity.
+    + cbn [snd]. exact H0.
+Qed.
+
+Lemma base_plasma_embedded_is_free bt gm dl p e :
+  GetBasePlasmaForAccountBlock true bt gm dl p e = (0, 0).
+Proof. reflexivity. Qed.
+
+(* a user block never costs less than the base: every successful answer for a block that is not a contract call *)
+Lemma base_plasma_at_least_base bt dl p e b :
+  0 <= dl -> GetBasePlasmaForAccountBlock false bt Err_constants_ErrNotContractAddress dl p e = (b, 0) ->
+  AccountBlockBasePlasma <= b /\ (ab_IsReceiveBlock bt = false -> b = AccountBlockBasePlasma + ABByteDataPlasma * dl /\ dl <= MaxDataLength).
+Proof.
+  intros Hdl. unfold GetBasePlasmaForAccountBlock, AccountBlockBasePlasma, ABByteDataPlasma, MaxDataLength. cbv zeta.
+  destruct (ab_IsReceiveBlock bt); [intros H; inversion H; split; [lia|discriminate]|].
+  rewrite Z.eqb_refl.
+  destruct (16384 <? dl) eqn:El; [unfold Err_verifier_ErrABDataTooBig; intros H; inversion H|].
+  assert (Hl : dl <= 16384) by lia.
+  rewrite (wrapS64_small (dl * 68)) by (unfold_consts; lia).
+  rewrite (wrapS64_small (dl * 68 + 21000)) by (unfold_consts; lia).
+  unfold wrapU. intros H. inversion H. rewrite Z.mod_small by lia. split; [lia|intros _; split; lia].
 Qed.
